@@ -404,6 +404,12 @@ def run(ctx):
     ctx.rule('C07.R2', 'echo filter (shared rule)', floor=10)
     for fam in SA:
         c07.r1_r2_listener(ctx, fam)
+    ctx.rule('C07.R7', 'host identity is fresh per manager object (shared '
+             'rule: what the echo filter and the home-only test compare)',
+             floor=2)
+    from .c07 import r7_host_identity
+    for fam in SA:
+        r7_host_identity(ctx, fam)
     ctx.rule('C07.R3', 'home-only callbacks (shared rule)', floor=8)
     for fam in SA:
         c07.r3_callbacks(ctx, fam)
